@@ -1460,6 +1460,19 @@ class Circuit(Unitary, StateVectorMap, Collection[Operation]):
             self.insert(cycle_index, op)
             return
 
+        # Resolve the cycle index once: the reversed inserts below must all
+        # refer to the same position, even though each one can change the
+        # number of cycles. Past the end, inserting degenerates to
+        # appending, which has to happen in forward order.
+        if cycle_index >= self.num_cycles:
+            self.append_circuit(circuit, location)
+            return
+
+        if cycle_index < -self.num_cycles:
+            cycle_index = 0
+        elif cycle_index < 0:
+            cycle_index = self.num_cycles + cycle_index
+
         for op in reversed(circuit):
             mapped_location = [location[q] for q in op.location]
             self.insert(
@@ -1797,6 +1810,7 @@ class Circuit(Unitary, StateVectorMap, Collection[Operation]):
         move: bool = False,
     ) -> None:
         """Replace the operation at 'point' with `circuit`."""
+        point = self.normalize_point(point)
         op = self.pop(point)
 
         if circuit.num_qudits != op.num_qudits:
